@@ -264,6 +264,8 @@ def generate(rng, seed, run, tier, focus='C11', xmode=False):
             style = {'table': rng.choice(['left', 'center', 'right', 'wide']),
                      'cxt': rng.choice(['nl', 'nonl']),
                      'csv': rng.choice(['plain', 'int', 'quote_all', 'tab', 'header'])}[frmat]
+            # line terminators of the platform the independent writer ran on (files only)
+            style += rng.choice(['', '', '+crlf', '+crlf', '+cr']) if frmat != 'csv' else rng.choice(['', '', '+lf'])
             enc = rng.choice(['utf-8', 'utf-8', 'utf-16', 'latin-1'])
             events.append(['ref_w', t, frmat, li, gen_table(rng, n, m), style, enc])
             files[t] = {'form': frmat, 'li': li, 'n': n, 'm': m}
@@ -920,6 +922,7 @@ class Storage:
             return rec.log('unrepresentable')
         bools = fca.bools()
         kwargs = {}
+        style, _, eol = style.partition('+')
         if frmat == 'table':
             text = refcodec.write_table(objs, props, bools, style=style)
         elif frmat == 'cxt':
@@ -929,7 +932,11 @@ class Storage:
             if style == 'tab':
                 kwargs['dialect'] = 'excel-tab'
             text = refcodec.write_csv(objs, props, bools, delimiter=delim, as_int=(style == 'int'),
-                                      quote_all=(style == 'quote_all'), header='obj' if style == 'header' else '')
+                                      quote_all=(style == 'quote_all'), header='obj' if style == 'header' else '',
+                                      terminator='\n' if eol == 'lf' else '\r\n')
+        if frmat != 'csv' and eol:
+            text = text.replace('\n', {'crlf': '\r\n', 'cr': '\r'}[eol])
+            rec.probe('reference_writer_foreign_line_endings')
         p = self.path(target)
         if os.path.exists(p):
             rec.fault('path_overwrite')
